@@ -59,13 +59,22 @@ def c07(chk):
                        what="the real connections", strip=("walks",), timeout=3400)
     for k, n in st["by_op"].items():
         ops[k] = ops.get(k, 0) + n
+    # a burst followed at once by a close, read slowly at the other end: what was accepted still arrives
+    burst = [[["Burst", "a", 4 * mib]], [["Burst", "b", 4 * mib]], [["Burst", "a", 300000]], [["Burst", "b", 70000]]]
+    if not quick:
+        burst = burst * 5 + [[["Burst", "a", 32 * mib]], [["Burst", "b", 32 * mib]]]
+    v, st = engine.run(chk, "weng", {"paths": ["pair", "tunnel1", "tunnel2", "chain"], "behaviours": burst},
+                       "burst-close", "TraceWs", TRACE_CONSTS, ["NoStepViolation"], "weng-trace",
+                       what="the real connections", strip=("walks",), timeout=3400)
+    for k, n in st["by_op"].items():
+        ops[k] = ops.get(k, 0) + n
     walks = {"paths": ["pair", "tunnel1", "tunnel2", "chain"], "walks": 12 if quick else 3000, "depth": 60}
     v, st = engine.run(chk, "weng", walks, "walks", "TraceWs", TRACE_CONSTS, ["NoStepViolation"], "weng-trace",
                        what="the real connections", strip=("walks",), timeout=3400)
     for k, n in st["by_op"].items():
         ops[k] = ops.get(k, 0) + n
     chk.notes["executed_calls_by_action"] = ops
-    for need in ("W", "R", "Close", "Bulk"):
+    for need in ("W", "R", "Close", "Bulk", "Burst"):
         if ops.get(need, 0) == 0:
             raise vp.Machinery("vacuous run: no " + need)
 
